@@ -21,6 +21,12 @@ CHECKS = {
  "C20": ("model_checking", "exhaustive reflection over every exported type x zero receivers x argument-free methods, plus explicit-state exploration of partial values: every (base, cut point, parser) triple's returned-with-error value x every argument-free method",
          "The type list is regenerated from /repo's AST at every run, so new types/methods are included automatically; partial values are produced by truncating every base at every field boundary (thorough: every offset).",
          "nil pointers returned with an error are not called through; mutating methods excluded."),
+ "C07": ("model_checking", "E1 over the identity generator x every API path x every single-byte variant (all positions), against SHA-256 / independent base32+base64 codecs",
+         "Every identity within the deviation bound through 8 API paths; for each, every byte position is modified (two values) and hash/address/equality re-evaluated. Exhaustive over positions and paths for the enumerated identities.",
+         "SHA-256 from the standard library; base codecs from refmodel."),
+ "C09": ("model_checking", "explicit enumeration of (API path x type pair): 16 paths x full product of known+boundary codes, plus all 65,536 codes per axis on the reader paths; oracle = independent prohibited-type table",
+         "All paths that can yield a Destination/RouterIdentity are driven with every known and boundary type pair; each axis is swept over the whole 16-bit space for the reader paths. A path that starts skipping the policy is reported with the path name.",
+         "The path list is hand-maintained (registry scan reports new byte-consuming entry points in C04's evidence)."),
  "C10": ("exploration", "exhaustive sweep of all 65,536 type codes through every size lookup and behavioural table, against an independent spec table",
          "Every one of the 65,536 signing and crypto codes is pushed through all lookups and length-dependent parsers; all supported pairs x 3 fills for the block layout. Exhaustive over the stated domain, so agreement is decided, not sampled.",
          "Trusts refmodel/tables.go (spec table) and the Go toolchain."),
